@@ -104,6 +104,17 @@ def duplexReadErrorStored (stored : Option GoError) (bodyErr : GoError) : GoErro
     | some s => s
     | none => duplexReadError bodyErr
 
+/-- `duplexHTTPCall.CloseRead` when draining or closing the response body fails (fix F13): as in
+    `Read`, the error the call already failed with wins; `errorTranslatingClientConn` then
+    applies `wrapIfUncoded` -/
+def duplexCloseReadError (stored : Option GoError) (bodyErr : GoError) : GoError :=
+  match stored with
+  | some s => s
+  | none => wrapIfRSTError bodyErr
+
+def clientCloseResponseError (stored : Option GoError) (bodyErr : GoError) : GoError :=
+  wrapIfUncoded (duplexCloseReadError stored bodyErr)
+
 /-- `duplexHTTPCall.makeRequest` on a failing `Do`: context, (h2c / gRPC hints), RST, else unavailable -/
 def doError (e : GoError) : GoError :=
   let e1 := wrapIfRSTError (wrapIfContextError e)
